@@ -215,6 +215,8 @@ pub struct TreeOpts {
     pub raw_text: bool,
     /// generate xml:id attributes (unique after normalisation, decorated with spaces)
     pub xml_ids: bool,
+    /// re-declare in-scope bindings and add alias prefixes (material for deduplication)
+    pub redundant_decls: bool,
 }
 
 impl TreeOpts {
@@ -233,6 +235,7 @@ impl TreeOpts {
             xml_attrs: true,
             raw_text: false,
             xml_ids: false,
+            redundant_decls: false,
         }
     }
     pub fn tiny(max_nodes: usize) -> Self {
@@ -250,6 +253,7 @@ impl TreeOpts {
             xml_attrs: false,
             raw_text: false,
             xml_ids: false,
+            redundant_decls: false,
         }
     }
 }
@@ -432,6 +436,27 @@ fn gen_element(src: &mut Src, g: &mut G, depth: usize, parent_scope: &Scope) -> 
     g.budget = g.budget.saturating_sub(1);
     let name = gen_qname(src, o, false);
     let mut decls = gen_decls(src, g);
+    if o.redundant_decls {
+        for (p, u) in parent_scope.iter() {
+            if p != "xml" && !decls.iter().any(|(dp, _)| dp == p) && src.ratio(1, 3) {
+                decls.push((p.clone(), u.clone()));
+            }
+        }
+        if src.ratio(1, 3) {
+            let uris: Vec<&String> = parent_scope.iter().filter(|(p, u)| p.as_str() != "xml" && !u.is_empty()).map(|(_, u)| u).collect();
+            if !uris.is_empty() {
+                let u = uris[src.choice_big(uris.len())].clone();
+                let cands: Vec<&str> = prefixes(o)
+                    .iter()
+                    .copied()
+                    .filter(|p| !p.is_empty() && !parent_scope.contains_key(*p) && !decls.iter().any(|(dp, _)| dp == p))
+                    .collect();
+                if !cands.is_empty() {
+                    decls.push((cands[src.choice(cands.len())].to_string(), u));
+                }
+            }
+        }
+    }
     let attrs = gen_attrs(src, g);
     if o.scoping == Scoping::Well {
         // element name
